@@ -383,6 +383,10 @@ func (c *Ctx) stepInner(step string) string {
 		// what was announced, judged independently of the node (C01): does the transaction contain an output of the
 		// agreed amount to the script of (node's key, peer's key, this invoice's hash, the chain's CSV)?
 		c.openWant = &swap.OpeningParams{TakerPubkey: c.nodePubkey(), MakerPubkey: hex.EncodeToString(c.peerKey.PubKey().SerializeCompressed()), ClaimPaymentHash: c.claimHash, Amount: openSat, CSV: c.csvFor()}
+		if n := atoiDef(a["confago"], 0); n > 0 {
+			// the maker confirmed the opening transaction n blocks ago and withheld the announcement until now
+			w.note(Obs{Kind: "confirmed-earlier", A: map[string]string{"chain": c.chain, "blocks": fmt.Sprint(n)}})
+		}
 		w.note(Obs{Kind: "announce", A: map[string]string{"hash": c.claimHash[:8], "msat": fmt.Sprint(msat), "msatok": fmt.Sprint(msat == claimSat*1000), "cltv": fmt.Sprint(cltv), "txok": fmt.Sprint(c.openingPays(txHex))}})
 		bk := ""
 		if c.chain == "lbtc" {
